@@ -109,9 +109,26 @@ def rule_mempool_handover(ctx):
     return n + 1
 
 
+def subscribe_site(ctx):
+    """the method that records a script-hash subscription: hashX_subscribe, or - when that one-caller helper was merged into
+    its caller - the one ElectrumX method that stores into self.hashX_subs"""
+    f = ctx.func('sess', 'ElectrumX.hashX_subscribe', required=False)
+    if f is not None:
+        return f
+    rel = ctx.repo.path('sess')
+    cands = [g for g in ctx.repo.funcs.values() if g.unit.relpath == rel and g.cls == 'ElectrumX'
+             and any(isinstance(s, ast.Assign) and isinstance(s.targets[0], ast.Subscript) and ctx.res.canon(s.targets[0].value, g) == 'self.hashX_subs'
+                     for s in g.own_nodes())]
+    if len(cands) != 1:
+        raise AnalysisError('anchor missing: function electrumx/server/session.py::ElectrumX.hashX_subscribe (and no single method records '
+                            'subscriptions in its place)')
+    ctx.consulted.add(rel)
+    return cands[0]
+
+
 def rule_subscribe(ctx):
     fr = Fresh(ctx, c10.EPOCHS)
-    f = ctx.func('sess', 'ElectrumX.hashX_subscribe')
+    f = subscribe_site(ctx)
     cfg = ctx.cfg(f)
     stores = [s for s in f.own_nodes() if isinstance(s, ast.Assign) and isinstance(s.targets[0], ast.Subscript)
               and ctx.res.canon(s.targets[0].value, f) == 'self.hashX_subs']
